@@ -148,7 +148,15 @@ func (w *World) transfer(r *hx.Run, c *conn, sport uint16, steps int) {
 	for k := 0; k < steps; k++ {
 		from := len(w.Seen)
 		wnd := uint16([]int{65535, 65535, 30000, 5000, 1460, 536, 1, 0}[r.R.Intn(8)])
-		switch op := r.R.Intn(22); {
+		op := r.R.Intn(22)
+		if c.finSent && op >= 10 && op < 16 {
+			// a peer that has sent its FIN sends no new data (its byte stream has ended); it may still repeat
+			// old segments
+			if op < 14 || len(c.sent) == 0 {
+				op = 8
+			}
+		}
+		switch {
 		case op < 4: // application writes
 			n := []int{1, 10, 100, 1460, 1461, 3000, 10000, 40000}[r.R.Intn(8)]
 			if r.R.Intn(2) == 0 {
@@ -199,7 +207,11 @@ func (w *World) transfer(r *hx.Run, c *conn, sport uint16, steps int) {
 			c.pSeq += uint32(n)
 		case op < 16: // peer data out of order / overlapping / duplicate of old data / beyond the window
 			total := uint32(len(c.sent))
-			switch r.R.Intn(4) {
+			sub := r.R.Intn(4)
+			if c.finSent {
+				sub = 1
+			}
+			switch sub {
 			case 0: // a hole: later data first, then the gap
 				n1, n2 := 1+r.R.Intn(1000), 1+r.R.Intn(1000)
 				b := make([]byte, n1+n2)
